@@ -128,6 +128,39 @@ Theorem dotimes_counter_is_max :
 Proof. exact dotimes_counter_spec. Qed.
 Print Assumptions dotimes_counter_is_max.
 
+(* The goroutine started by Launch calls Done on EVERY exit path of the operation — normal return, panic,
+   runtime.Goexit — because PostHook puts the hook in a deferred position ... *)
+Theorem launch_done_on_every_exit :
+  forall (ctx_live : bool) (e : exit_kind) (c : Z),
+    0 < c -> launch_goroutine ctx_live e c = (c - 1, RUnit).
+Proof. exact launch_done_on_every_exit_lemma. Qed.
+Print Assumptions launch_done_on_every_exit.
+
+(* ... and Launch is balanced whatever the state of the context it is given (live or already ended): the goroutine is
+   started, the body is called, Done runs — the counter comes back to where it was. *)
+Theorem launch_cancelled_ctx_balanced :
+  forall (ctx_live : bool) (e : exit_kind) (c : Z),
+    0 <= c -> launch_roundtrip ctx_live e c = (c, RUnit) /\ launch_body_runs ctx_live = true.
+Proof. exact launch_cancelled_ctx_balanced_lemma. Qed.
+Print Assumptions launch_cancelled_ctx_balanced.
+
+(* Wait's zero-check and its park are one critical section: between finding the counter non-zero and being
+   registered on the wait list the waiter holds the mutex and no step of any thread changes the counter. *)
+Theorem wait_check_and_park_atomic :
+  forall (p : tid -> wg_op) (s : wg_state) (t : tid),
+    wg_reachable p s -> is_wait (p t) = true -> thr s t = Parking ->
+    lock s = Some t /\ dat s <> 0 /\
+    (forall l s', wg_mstep p s l s' -> dat s' = dat s /\ (thr s' t = Parking \/ (l = LPark t /\ thr s' t = Parked))).
+Proof. exact wait_check_and_park_atomic_lemma. Qed.
+Print Assumptions wait_check_and_park_atomic.
+
+(* Why: with the check outside the mutex (model `ustep`) four steps — Add 1; check; Done; lock-and-park — leave the
+   waiter asleep on a zero counter with a live context. *)
+Theorem wait_check_outside_lock_refuted :
+  exists s, ureach s /\ u_counter s = 0 /\ u_waiter s = UParked.
+Proof. exact wait_check_outside_lock_refuted_lemma. Qed.
+Print Assumptions wait_check_outside_lock_refuted.
+
 (* Wait returns once its context is cancelled: in every reachable state, a waiter that is parked although its
    context has ended has its helper's Broadcast pending (it will be taken off the wait list, re-check and return
    RCancelled) — for ALL schedules, contexts ending at any point. *)
